@@ -1,4 +1,4 @@
-import Ledger.Spec.Store
+import Ledger.Spec.Pcev
 
 /-!
 Histories: the high-level write operations of the ledger applied to the Spec (the journal
@@ -56,14 +56,15 @@ def fundsOk (bal : Key → Int) : List Posting → Map Key Int → Bool
       fundsOk bal ps (d1.insertWith (· + ·) p.dstKey p.amount)
 
 def commit (w : World) (at_ : Int) (ts : Int) (ps : List Posting) (reference : String) (md : Metadata)
-    (am : Map String Metadata) : World × Outcome :=
-  let tin : TxIn := { postings := ps, timestamp := ts, insertedAt := at_, reference, metadata := md, accountMetadata := am }
+    (am : Map String Metadata) (upsertAccounts : Bool) : World × Outcome :=
+  let tin : TxIn := { postings := ps, timestamp := ts, insertedAt := at_, reference, metadata := md,
+                      accountMetadata := am, upsertAccounts }
   match applyTx w.store tin with
   | .error e => (w, .internal e.toString)
   | .ok st =>
     let rec_ : TxRec := { id := w.store.nextTxId, postings := ps, timestamp := ts, insertedAt := at_,
                           reference, metadata := md }
-    ({ ledger := { events := w.ledger.events ++ [.committed rec_ am] }, store := st }, .ok)
+    ({ ledger := { events := w.ledger.events ++ [.committed rec_ am upsertAccounts] }, store := st }, .ok)
 
 def findTx (txs : List TxRec) (id : Nat) : Option TxRec := txs.find? (·.id = id)
 
@@ -71,9 +72,12 @@ def World.step (w : World) : Op → World × Outcome
   | .tx at_ ts ps reference md am force =>
     let txs := w.ledger.txs
     if ps.isEmpty then (w, .noPostings)
-    else if reference != "" && txs.any (·.reference == reference) then (w, .referenceConflict)
+    else if reference != "" && txs.any (·.reference == reference) then
+      -- the unique index rejects the INSERT after `nextval` was evaluated: the SQL transaction
+      -- rolls back but the (non-transactional) id sequence keeps the hole
+      ({ w with store := { w.store with nextTxId := w.store.nextTxId + 1 } }, .referenceConflict)
     else if !force && !fundsOk (balanceOf txs) ps [] then (w, .insufficientFunds)
-    else commit w at_ (ts.getD at_) ps reference md am
+    else commit w at_ (ts.getD at_) ps reference md am true
   | .revert at_ id force atEff md =>
     let txs := w.ledger.txs
     match findTx txs id with
@@ -89,7 +93,7 @@ def World.step (w : World) : Op → World × Outcome
       | .ok rtx =>
         let w1 : World := { ledger := { events := w.ledger.events ++ [.reverted id at_] },
                             store := markReverted w.store id at_ }
-        commit w1 at_ (rtx.timestamp.getD at_) rtx.postings "" rtx.metadata []
+        commit w1 at_ (rtx.timestamp.getD at_) rtx.postings "" rtx.metadata [] false
   | .saveMeta at_ target md =>
     match target with
     | .tx id =>
@@ -120,18 +124,13 @@ def World.run (w : World) : List Op → World × List Outcome
 def Ledger.accounts (l : Ledger) : List String :=
   (l.events.foldl (fun (m : Map String Unit) e =>
     match e with
-    | .committed t am =>
+    | .committed t am true =>
       let m1 := t.postings.foldl (fun m p => (m.insert p.source ()).insert p.destination ()) m
       am.foldl (fun m e => m.insert e.1 ()) m1
     | .metaWrite { target := .account a, change := .save _, .. } => m.insert a ()
     | _ => m) []).keys
 
-/-- C04's invariant as a decidable check on a moves table: every move's effective volumes
-    are the sum of the deltas of the moves of the same account/asset that are not after it in
-    `(effective_date, seq)` order. -/
-def pcevInvB (moves : List MoveRow) : Bool :=
-  moves.all fun m =>
-    let sel := moves.filter fun m' => m'.key == m.key && (m'.before m || m'.seq == m.seq)
-    m.pcev == sel.foldl (fun acc m' => acc.add m'.delta) Volumes.zero
+/-- C04's invariant as a decidable check on a moves table (`Spec/Pcev.lean`). -/
+def pcevInvB (moves : List MoveRow) : Bool := pcevInvCheck moves
 
 end Ledger.Spec
